@@ -466,7 +466,8 @@ impl Report {
         if !new_violations.is_empty() {
             let _ = std::fs::create_dir_all(&replay_dir);
         }
-        for (i, (k, v, n)) in new_violations.iter().enumerate().take(25) {
+        let max_report: usize = std::env::var("VERIF_MAX_REPORT").ok().and_then(|s| s.parse().ok()).unwrap_or(25);
+        for (i, (k, v, n)) in new_violations.iter().enumerate().take(max_report) {
             let path = replay_dir.join(format!("violation_{:03}.json", i));
             let doc = json!({
                 "property": self.id,
@@ -490,6 +491,14 @@ impl Report {
             println!("  key={k}  detail={}", v.detail);
         }
 
+        if new_violations.len() > 1 {
+            let mut classes: BTreeMap<String, usize> = BTreeMap::new();
+            for (k, _, _) in &new_violations {
+                let c: Vec<&str> = k.split('/').take(2).collect();
+                *classes.entry(c.join("/")).or_insert(0) += 1;
+            }
+            println!("violation classes (distinct keys): {classes:?}");
+        }
         let exhaustive = self.exhaustive && total.caps.is_empty();
         let mut coverage = Map::new();
         coverage.insert("evaluations".into(), json!(total.evaluations));
